@@ -277,6 +277,48 @@ func c03(c *Ctx) {
 				return isC && lo == 1
 			}
 			okLen, okRemain := false, false
+			// the bound in any linear spelling: len(part[1:]) <= n, len(part)-1 <= n, len(part) <= n+1, or the rejecting guard
+			// len(part)-1 > n / len(part) > n+1 whose true outcome only returns false
+			lenBound := func(x *ast.BinaryExpr) (accept, reject bool) {
+				l, op, r, good := cmpNorm(x, 1)
+				if !good || nparam == nil {
+					return
+				}
+				tl, kl := linearForm(tinfo, l)
+				tr, kr := linearForm(tinfo, r)
+				diff := map[string]int{}
+				for k, v := range tl {
+					diff[k] += v
+				}
+				for k, v := range tr {
+					diff[k] -= v
+				}
+				kd := kl - kr
+				// len(part[1:]) counts as len(part) - 1
+				partName := part.Name()
+				if v := diff["len("+partName+"[1:])"]; v != 0 {
+					delete(diff, "len("+partName+"[1:])")
+					diff["len("+partName+")"] += v
+					kd -= int64(v)
+				}
+				for k, v := range diff {
+					if v == 0 {
+						delete(diff, k)
+					}
+				}
+				if len(diff) != 2 || diff["len("+partName+")"] != 1 || diff[nparam.Name()] != -1 {
+					return
+				}
+				// diff + kd  op  0   with diff = len(part) − n
+				switch {
+				case op == token.LEQ && kd == -1, op == token.LSS && kd == -2:
+					accept = true
+				case op == token.GTR && kd == -1, op == token.GEQ && kd == -2:
+					reject = true
+				}
+				return
+			}
+			hgr := tx.FG(h)
 			inspectNoLit(h.Body(), func(nd ast.Node) bool {
 				switch x := nd.(type) {
 				case *ast.BinaryExpr:
@@ -284,6 +326,30 @@ func c03(c *Ctx) {
 					if good && op == token.LEQ && nparam != nil && sameVar(tinfo, r, nparam) {
 						if lc, ok := l.(*ast.CallExpr); ok && builtinName(tinfo, lc) == "len" && isRest(lc.Args[0]) {
 							okLen = true
+						}
+					}
+					if acc, rej := lenBound(x); acc {
+						okLen = true
+					} else if rej {
+						// the true outcome of the guard leads to `return false` only
+						for _, y := range hgr.Nodes {
+							for _, ed := range y.Succs {
+								if ed.Cond == nil || ed.Pol < 0 || !containsNoLitOrIn(ed.Cond, x) {
+									continue
+								}
+								sn, _ := hgr.ReachFromEdge(ed, nil)
+								only := true
+								for z := range sn {
+									if rs, isR := z.N.(*ast.ReturnStmt); isR && len(rs.Results) == 1 {
+										if tv := tinfo.Types[rs.Results[0]]; tv.Value == nil || constant.BoolVal(tv.Value) {
+											only = false
+										}
+									}
+								}
+								if only {
+									okLen = true
+								}
+							}
 						}
 					}
 				case *ast.CallExpr:
